@@ -31,7 +31,7 @@ type divergence struct{ msg string }
 func (c *chooser) Choose(n int, preempt bool, kind string) int {
 	i := len(c.trace)
 	ch := 0
-	costly := (kind == "sched" && preempt) || kind == "pool"
+	costly := (kind == "sched" && preempt) || kind == "pool" || c.e.AllCostly
 	if i < len(c.prefix) {
 		ch = c.prefix[i]
 		if i < len(c.expect) && (c.expect[i].N != n || c.expect[i].Kind != kind) {
@@ -48,6 +48,16 @@ func (c *chooser) Choose(n int, preempt bool, kind string) int {
 		}
 		c.e.visited[k] = true
 		c.e.Stats.States++
+		if c.e.Debug {
+			if c.e.FirstReach == nil {
+				c.e.FirstReach = map[uint64][]int{}
+			}
+			p := make([]int, len(c.trace))
+			for j, pt := range c.trace {
+				p[j] = pt.Chosen
+			}
+			c.e.FirstReach[k] = p
+		}
 	}
 	c.trace = append(c.trace, Point{N: n, Costly: costly, Kind: kind, Chosen: ch, Desc: vsched.LastEnabled})
 	return ch
@@ -64,8 +74,11 @@ type Stats struct {
 }
 
 type Explorer struct {
-	Bound    int // maximum deviations per execution; <0 = unbounded
-	StateKey func() uint64
+	Bound int // maximum deviations per execution; <0 = unbounded
+	// AllCostly: every non-default answer counts as a deviation (delay bounding), not only
+	// preemptions and pool answers; keeps the search polynomial with many threads.
+	AllCostly bool
+	StateKey  func() uint64
 	// Exec runs one execution under the chooser. It must be deterministic given the choices.
 	Exec func(ch vsched.Chooser) (pruned bool)
 	// Check judges the execution that just ran (not called for pruned ones).
@@ -77,7 +90,13 @@ type Explorer struct {
 	Stats    Stats
 	visited  map[uint64]bool
 	expect   map[*int][]Point
+	// Debug: remember which prefix first reached each key
+	Debug      bool
+	FirstReach map[uint64][]int
 }
+
+// Visited reports whether the key was seen by the search.
+func (e *Explorer) Visited(k uint64) bool { return e.visited[k] }
 
 func cost(trace []Point, upto int) int {
 	c := 0
